@@ -90,6 +90,27 @@ def gen_cases(tier, seed):
             vopts = catalog.vclass_options(op, args)
             cases.append({"kind": "op", "op": name, "form": form, "shapes": shapes, "args": args, "vclass": vopts[n % len(vopts)],
                           "dtype": ["float64", "float32"][n % 2], "illegal_variant": ill, "seed": int(rng.integers(2 ** 31))})
+    # IEEE special values (nan, +-inf, -0.0) flow through the data-movement, arithmetic and reduction ops exactly as through NumPy
+    for name in ("add", "sub", "mul", "neg", "sum", "mean", "max", "min", "reshape", "transpose", "movedim", "concat", "stack", "unbind", "slice", "squeeze",
+                 "unsqueeze", "flatten", "clone", "exp", "relu" if "relu" in OPS else "neg"):
+        op = OPS[name]
+        g = catalog.grid(name, "quick", rng)
+        for k in range(min(len(g), 6 if tier == "quick" else 60)):
+            shapes, args = g[int(rng.integers(len(g)))]
+            forms_ = [f for f in op.forms if not (f in ("left", "right") and args.get("side") != f) and "mutated" not in f]
+            cases.append({"kind": "op", "op": name, "form": forms_[k % len(forms_)], "shapes": shapes, "args": args, "vclass": "special",
+                          "dtype": ["float64", "float32"][k % 2], "illegal_variant": False, "seed": int(rng.integers(2 ** 31))})
+    # empty-but-legal operands: one dimension of extent 0 (an empty batch): shapes follow the same rules, nothing raises that NumPy accepts
+    for name in ("add", "mul", "neg", "sum", "mean", "transpose", "movedim", "squeeze", "unsqueeze", "flatten", "clone", "exp", "concat", "stack", "unbind"):
+        op = OPS[name]
+        g = [it for it in catalog.grid(name, "quick", rng) if it[0] and all(len(s_) >= 1 for s_ in it[0]) and len({tuple(s_) for s_ in it[0]}) == 1]
+        for k in range(min(len(g), 4 if tier == "quick" else 40)):
+            shapes, args = g[int(rng.integers(len(g)))]
+            j = int(rng.integers(len(shapes[0])))
+            shapes = [[0 if i_ == j else v_ for i_, v_ in enumerate(s_)] for s_ in shapes]
+            forms_ = [f for f in op.forms if not (f in ("left", "right") and args.get("side") != f) and "mutated" not in f]
+            cases.append({"kind": "op", "op": name, "form": forms_[k % len(forms_)], "shapes": shapes, "args": args, "vclass": "normal",
+                          "dtype": ["float64", "float32"][k % 2], "illegal_variant": False, "seed": int(rng.integers(2 ** 31)), "empty_operand": True})
     # rank-5 and bigger operands (forward only)
     for name in ("add", "mul", "sum", "mean", "max", "transpose", "movedim", "flatten", "reshape", "squeeze", "unsqueeze"):
         for k in range(4 if tier == "quick" else 40):
@@ -154,6 +175,8 @@ def compare_value(got, ref, ref_abs, dtype, redlen):
     with np.errstate(invalid="ignore"):
         bad = ~(d <= b)
     bad &= ~(np.isnan(ref) & np.isnan(got.astype(np.float64)))
+    with np.errstate(invalid="ignore"):
+        bad &= ~(got.astype(np.float64) == ref)               # equal infinities
     if bad.any():
         i = tuple(int(v) for v in np.argwhere(bad)[0])
         return f"value at {list(i)}: got {got[i]!r}, want {ref[i]!r} (bound {b[i] if np.ndim(b) else b:.3g})"
